@@ -26,7 +26,10 @@ SymText == << "a", "c", "h", "i", "A", "H", "`",        \*  1..7   file letters 
               \* `as u8` would alias them): rank digit 1, direction n, piece r, pass p
               "U+0131", "U+016E", "U+0172", "U+0170",
               \* 33..36: upper-case forms of accepted lower-case letters that are NOT piece letters
-              "P", "N", "S", "W" >>
+              "P", "N", "S", "W",
+              \* 37..39: line ends and tab - what a caller reading actions from a file or a terminal
+              \* forgets to strip; no printed form contains them
+              "U+000A", "U+000D", "U+0009" >>
 K == Len(SymText)
 Sym(t) == CHOOSE k \in 1..K : SymText[k] = t
 
